@@ -188,7 +188,8 @@ pub fn main() {
     TRK.with(|t| t.borrow_mut().enabled = true);
     let stdin = std::io::stdin();
     let stdout = std::io::stdout();
-    let mut w = std::io::BufWriter::new(stdout.lock());
+    // every observation leaves the process at once: a later abort (double free) must not take it along
+    let mut w = std::io::LineWriter::new(stdout.lock());
     for line in stdin.lock().lines() {
         let line = match line {
             Ok(l) => l,
